@@ -2,6 +2,11 @@
 //   -DIO_PROG=<1|2> -DIO_INPUT=<n>  (see io_types.hpp)
 #include <tao/pegtl.hpp>
 
+#include <iostream>
+#include <sstream>
+
+#include <tao/pegtl/contrib/trace.hpp>
+
 #include "io_grammars.hpp"
 #include "io_types.hpp"
 
@@ -21,6 +26,10 @@ namespace sim
    using io_top = io::g_states;
 #elif IO_PROG == 8
    using io_top = io::g_hooks;
+#elif IO_PROG == 9
+   using io_top = io::g_json;
+#elif IO_PROG == 10
+   using io_top = io::g_json;
 #else
    using io_top = io::g_mustif;
 #endif
@@ -40,6 +49,32 @@ namespace sim
       return pegtl::parse< io_top, sim_action, sim_control >( in, value );
 #elif IO_PROG == 7
       return pegtl::parse< io_top, sim_action, io::mi_control >( in, root );
+#elif IO_PROG == 9 || IO_PROG == 10
+      // the tracer (a state_control state) over the recording control; JSON grammar; 9: internal rules hidden, 10: every rule
+      constexpr bool complete = ( IO_PROG == 10 );
+      struct cerr_capture
+      {
+         std::ostringstream oss;
+         std::streambuf* old;
+         cerr_capture()
+            : old( std::cerr.rdbuf( oss.rdbuf() ) )
+         {}
+         ~cerr_capture()
+         {
+            std::cerr.rdbuf( old );
+         }
+      } cap;
+      pegtl::tracer< pegtl::tracer_traits< !complete, false > > tr( in );
+      bool result = false;
+      try {
+         result = tr.template parse< io_top, sim_action, sim_control >( in, root );
+      }
+      catch( ... ) {
+         tracer_check( cap.oss.str(), tr.m_stack.size(), tr.m_count, complete, snap( in ) );
+         throw;
+      }
+      tracer_check( cap.oss.str(), tr.m_stack.size(), tr.m_count, complete, snap( in ) );
+      return result;
 #elif IO_PROG == 8
       io::tag_a ta;
       io::tag_b tb;
